@@ -377,17 +377,25 @@ class TransportLayerLogic:
             if validate:
                 self.validate()
 
+        @staticmethod
+        def _fits_float(value: int) -> bool:
+            try:
+                float(value)
+                return True
+            except OverflowError:   # the timers work with float seconds
+                return False
+
         def validate(self) -> None:
             if not isinstance(self.rx_flowcontrol_timeout, int):
                 raise ValueError('rx_flowcontrol_timeout must be an integer')
 
-            if self.rx_flowcontrol_timeout < 0:
+            if self.rx_flowcontrol_timeout < 0 or not self._fits_float(self.rx_flowcontrol_timeout):
                 raise ValueError('rx_flowcontrol_timeout must be positive integer')
 
             if not isinstance(self.rx_consecutive_frame_timeout, int):
                 raise ValueError('rx_consecutive_frame_timeout must be an integer')
 
-            if self.rx_consecutive_frame_timeout < 0:
+            if self.rx_consecutive_frame_timeout < 0 or not self._fits_float(self.rx_consecutive_frame_timeout):
                 raise ValueError('rx_consecutive_frame_timeout must be positive integer')
 
             if self.tx_padding is not None:
